@@ -59,6 +59,20 @@ def unicode_codepoint_strxfrm(s: str) -> str:
     return s
 
 
+# The HTML ASCII case-insensitive collation maps only the letters A-Z to a-z (a string
+# keeps its length, 'ß' is not 'ss' and 'É' is not 'é'), then compares codepoints.
+ASCII_LOWERCASE_MAP = {k: k + 32 for k in range(ord('A'), ord('Z') + 1)}
+
+
+def ascii_case_insensitive_strcoll(s1: str, s2: str) -> int:
+    s1, s2 = s1.translate(ASCII_LOWERCASE_MAP), s2.translate(ASCII_LOWERCASE_MAP)
+    return 0 if s1 == s2 else -1 if s1 < s2 else 1
+
+
+def ascii_case_insensitive_strxfrm(s: str) -> str:
+    return s.translate(ASCII_LOWERCASE_MAP)
+
+
 def case_insensitive_strcoll(s1: str, s2: str) -> int:
     if s1.casefold() == s2.casefold():
         return 0
@@ -110,8 +124,8 @@ class CollationManager(context_class_base):
             self.strxfrm = unicode_codepoint_strxfrm
         elif collation == HTML_ASCII_CASE_INSENSITIVE_COLLATION:
             self.lc_collate = None
-            self.strcoll = case_insensitive_strcoll
-            self.strxfrm = case_insensitive_strxfrm
+            self.strcoll = ascii_case_insensitive_strcoll
+            self.strxfrm = ascii_case_insensitive_strxfrm
         elif collation == XQUERY_TEST_SUITE_CASEBLIND_COLLATION:
             self.lc_collate = None
             self.strcoll = case_insensitive_strcoll
